@@ -14,6 +14,7 @@ import OFV.Proofs.C18Pauli
 import OFV.Proofs.C18Async
 import OFV.Proofs.C18Pws4
 import OFV.Proofs.C18Pws5
+import OFV.Proofs.C18Binned
 
 namespace OFV.C18
 open OFV.Model.C18 OFV.Spec.C18 OFV.Proofs.C18
@@ -133,15 +134,66 @@ theorem pws_spec (labels : List L) (hl : labels.Nodup) (hn : none ∉ labels) :
 example : quadsCovered [(List.range 7).map some] (pairWithinSimultaneously ((List.range 7).map some)) = true :=
   pws_spec _ (by decide) (by decide)
 
-/-- `_asynchronous_iter`, padded (general) branch, any number of iterators of any lengths: any two
-results of two different iterators occur together in some yield.  The index pattern `(j·k + l) mod L'`
-is a family of Latin squares because the padding `L'` (see `get_padding_spec`) has no divisor in
-`[2, K−1)`, so every difference of two row indices is invertible mod `L'`.
-Full statement (open): the same for `_asynchronous_iter` itself, i.e. also for the
-`_asynchronous_iter_small_lists` branch and the single-entry edge case (checked by the Spec oracle). -/
-theorem async_iter_covers_partial (lists : List (List (Pairing L))) :
-    asyncCovers lists (asyncPadded lists) = true :=
-  OFV.Proofs.C18Async.asyncPadded_covers lists
+/-- `_asynchronous_iter(iterators, flatten=True)`, all three branches (single-entry edge case,
+`_asynchronous_iter_small_lists` through `binary_partition_iterator`, and the padded Latin-square pattern
+`(j·k + l) mod L'` with `L'` from `_get_padding`): when some iterator is non-empty and no result is the
+empty tuple the call succeeds and any two results of two different iterators occur together in a yield. -/
+theorem async_iter_covers (lists : List (List (Pairing L))) (hne : ∀ l ∈ lists, ∀ x ∈ l, x ≠ [])
+    (hsome : ∃ l ∈ lists, l ≠ []) : ∃ ys, asyncIter lists = some ys ∧ asyncCovers lists ys = true := by
+  obtain ⟨ys, h1, h2⟩ := OFV.Proofs.C18Async.asyncIter_covers lists hne hsome
+  refine ⟨ys, h1, ?_⟩
+  simp only [asyncCovers, List.all_eq_true, Bool.or_eq_true, beq_iff_eq, List.any_eq_true, Bool.and_eq_true,
+    within, List.contains_iff_mem]
+  intro li hli lj hlj
+  obtain ⟨A, a⟩ := li
+  obtain ⟨B, b⟩ := lj
+  by_cases hab : a = b
+  · exact Or.inl hab
+  · right
+    have ha := List.mem_zipIdx hli
+    have hb := List.mem_zipIdx hlj
+    simp only [Nat.zero_add, Nat.sub_zero] at ha hb
+    obtain ⟨_, ha1, ha2⟩ := ha
+    obtain ⟨_, hb1, hb2⟩ := hb
+    intro x hx y hy
+    simp only at hx hy
+    rw [ha2] at hx; rw [hb2] at hy
+    by_cases hlt : a < b
+    · obtain ⟨r, hr, s1, s2⟩ := h2 a b hlt hb1 x y hx hy
+      exact ⟨r, hr, s1, s2⟩
+    · obtain ⟨r, hr, s1, s2⟩ := h2 b a (by omega) ha1 y x hy hx
+      exact ⟨r, hr, s2, s1⟩
+
+/-- `pair_within_simultaneously_binned`, any `2^s` bins of pairwise distinct labels (not all empty): the
+call does not raise, and for every four labels whose bin indices XOR to 0 (the labels allowed by the
+symmetries) one of their three splits is co-scheduled.  Same bin: `pws_covers` through `_parallel_iter`;
+two bins: `pair_within_spec` through `_asynchronous_iter`; four bins: one of the three pairings uses a
+gap below `num_bins / 2` (the two numbers with the top bit set XOR to one without), and the cross pairs of
+`pair_between_spec` are brought together by `_asynchronous_iter`.
+Open: that every yield is a partial matching (checked by the oracle). -/
+theorem pws_binned_covers (bins : List (List L)) (s : Nat) (hlen : bins.length = 2 ^ s)
+    (hnd : bins.flatten.Nodup) (hnn : none ∉ bins.flatten) (hsome : ∃ b ∈ bins, b ≠ []) :
+    (pwsBinned bins).2 = true ∧
+    ∀ (i1 i2 i3 i4 : Nat) (a b c d : L), a ∈ bins.getD i1 [] → b ∈ bins.getD i2 [] → c ∈ bins.getD i3 [] →
+      d ∈ bins.getD i4 [] → [a, b, c, d].Nodup → i1 ^^^ i2 ^^^ i3 ^^^ i4 = 0 →
+      quadOk (pwsBinned bins).1 a b c d = true := by
+  obtain ⟨h1, h2⟩ := OFV.Proofs.C18Binned.binned_covers (bins := bins) (s := s) ⟨hlen, hnd, hnn, hsome⟩
+  exact ⟨h1, fun i1 i2 i3 i4 a b c d ha hb hc hd hn hx => h2 i1 i2 i3 i4 a b c d ⟨ha, hb, hc, hd, hn, hx⟩⟩
+
+/-- `pair_within_simultaneously_symmetric(num_fermions, num_symmetries)`, all `num_fermions ≥ 1` and all
+numbers of symmetries: the call does not raise and every four Majoranas whose bin indices
+(`index mod 2^num_symmetries`) XOR to 0 have a co-scheduled split. -/
+theorem pws_symmetric_covers (nf ns : Nat) (hnf : 1 ≤ nf) :
+    (pwsSymmetric nf ns).2 = true ∧
+    ∀ (i1 i2 i3 i4 : Nat), i1 < 2 * nf → i2 < 2 * nf → i3 < 2 * nf → i4 < 2 * nf →
+      [i1, i2, i3, i4].Nodup →
+      (i1 % 2 ^ ns) ^^^ (i2 % 2 ^ ns) ^^^ (i3 % 2 ^ ns) ^^^ (i4 % 2 ^ ns) = 0 →
+      quadOk (pwsSymmetric nf ns).1 (some i1) (some i2) (some i3) (some i4) = true :=
+  OFV.Proofs.C18Binned.symmetric_covers nf ns hnf
+
+example : quadOk (pwsSymmetric 4 1).1 (some 0) (some 2) (some 3) (some 7) = true :=
+  (pws_symmetric_covers 4 1 (by decide)).2 0 2 3 7 (by decide) (by decide) (by decide) (by decide)
+    (by decide) (by decide)
 
 /-- `partition_iterator(qubit_list, k)` (default number of iterations), every list length and every
 `1 ≤ k ≤ n`: every yield is a `k`-partition of the qubits and every `k`-subset is perfectly split (one
